@@ -167,7 +167,7 @@ def main(tier, replay=None):
     c.log("witnesses:", wit)
 
     # 2. generated histories
-    n = 150 if tier == "quick" else 2600
+    n = 128 if tier == "quick" else 2048
     impl = os.path.join(c.workdir, "impl.txt")
     if replay:
         rp = json.load(open(replay))
@@ -182,7 +182,14 @@ def main(tier, replay=None):
         stats = "replay of %d histories" % len(firsts)
     else:
         rc, o, e = V.sh([outs[0], "-n", str(n), "-out", impl, "-j", str(V.NCPU)], timeout=3000)
-        stats = e.strip().splitlines()[-1] if e.strip() else ""
+        agg = collections.Counter()
+        for sl in e.splitlines():
+            if "=" in sl and "histories=" in sl:
+                for kv in sl.split():
+                    if "=" in kv and kv.split("=")[1].isdigit():
+                        agg[kv.split("=")[0]] += int(kv.split("=")[1])
+        stats = "generator: " + " ".join("%s=%d" % kv for kv in sorted(agg.items()))
+        c.coverage["generator_distribution"] = dict(agg)
         if rc != 0:
             return c.finish(TRUSTED, no_input_break="harness cmd/c12 failed to run: " + (o + e)[-1500:])
     rc, mo, me = V.sh("%s < %s" % (exe, impl), timeout=3000)
